@@ -365,7 +365,8 @@ func generate(thorough bool) []*Case {
 	}
 	// ulimit payload variants: spellings x (soft, hard)
 	for _, sp := range []struct{ in, norm string }{{"NOFILE", "RLIMIT_NOFILE"}, {"nofile", "RLIMIT_NOFILE"}, {"RLIMIT_NOFILE", "RLIMIT_NOFILE"}, {"rlimit_nofile", "RLIMIT_NOFILE"}, {"Rlimit_NoFile", "RLIMIT_NOFILE"}, {"BOGUS", ""}, {"RLIMIT_", ""}, {"", ""}} {
-		for _, sh := range [][2]int{{1, 2}, {2, 2}, {3, 2}, {0, 0}} {
+		const max64 = ^uint64(0)
+		for _, sh := range [][2]uint64{{1, 2}, {2, 2}, {3, 2}, {0, 0}, {0, max64}, {max64, max64}, {max64, 65536}, {1<<63 + 1, 0}, {1 << 63, 1<<63 - 1}, {1<<63 - 1, 1 << 63}, {65536, max64}} {
 			pl := fmt.Sprintf("- type: %q\n  soft: %d\n  hard: %d\n", sp.in, sh[0], sh[1])
 			x := "fail"
 			if sp.norm != "" && sh[1] >= sh[0] {
